@@ -141,14 +141,18 @@ func analyzeC05(tr *muxTrace) string {
 		if s.kind == opPacket {
 			continue
 		}
-		for i, p := range mustPackets(s.out) {
-			if isWritePacketPID(p.PID) || !p.HasPayload {
+		// header fields only (PID, payload flag, counter): a packet that is malformed elsewhere - C04's business - still
+		// counts here with what its header says
+		raw, _ := ref.SplitPackets(s.out)
+		for i, r := range raw {
+			pid, hasPayload, cc := uint16(r[1]&0x1f)<<8|uint16(r[2]), r[3]&0x10 != 0, int(r[3]&0x0f)
+			if isWritePacketPID(pid) || !hasPayload {
 				continue
 			}
-			if prev, ok := last[p.PID]; ok && int(p.CC) != (prev+1)%16 {
-				return fmt.Sprintf("step %d %s: packet %d on PID %#x has continuity_counter %d after %d", s.idx, s.desc, i, p.PID, p.CC, prev)
+			if prev, ok := last[pid]; ok && cc != (prev+1)%16 {
+				return fmt.Sprintf("step %d %s: packet %d on PID %#x has continuity_counter %d after %d", s.idx, s.desc, i, pid, cc, prev)
 			}
-			last[p.PID] = int(p.CC)
+			last[pid] = cc
 		}
 	}
 	return ""
